@@ -203,6 +203,7 @@ func TestVerifC07Sequential(t *testing.T) {
 	defer srv.Close()
 	base := t.TempDir()
 	rapid.Check(t, func(t *rapid.T) {
+		defer vuProcessZone(t)()
 		cfg, files, start := c07Scenario(t)
 		dir := vuFreshDir(base)
 		defer os.RemoveAll(dir)
